@@ -168,6 +168,75 @@ def rule_I1(ctx):
         ctx.ob("I1", fn, f"{fac}: records are addressed absolutely (Computed/Pointer/Lazy only), so element i cannot shift element j", ok, det, inst=f"footprint:{fac}")
 
 
+I4_NOT_REQUIRED = {
+    # storage-layer exception -> why the per-file isolation does not have to convert it
+    "AttemptToReadBeyondBuffer": "internal invariant of SectorStream._read (a piece never exceeds its sector: S4 piece-bound), not data dependent",
+    "BadReadSize": "raised only by reversed (Roland) views for unaligned requests; AKAI files are not reversed",
+    "BadAlign": "raised only by reversed (Roland) views",
+    "InvalidFatDefinition": "needs a cyclic or out-of-table allocation table; C14 damages one directory entry of an intact table (termination is C07/C13)",
+    "FatNotPresent": "Roland context error",
+}
+
+
+def rule_I4(ctx):
+    """error discipline: every data-dependent failure of the storage layer while one AKAI file is parsed
+    is converted into the error the per-file isolation swallows"""
+    raised = {}
+    for path in ("smpl_extract/util/stream.py", "smpl_extract/util/sector.py", "smpl_extract/util/fat.py"):
+        m = ctx.prog.module(path)
+        for n in ast.walk(m.tree):
+            if isinstance(n, ast.Raise) and n.exc is not None:
+                e = n.exc.func if isinstance(n.exc, ast.Call) else n.exc
+                nm = (dotted(e) or "?").split(".")[-1]
+                raised.setdefault(nm, n)
+    library = {"struct.error": "construct's compiled structs unpack a short read without a length check"}
+    fa = ctx.fn(AK + "file.py", "FileAdapter._parse", "I4")
+    c = [x for x in own_nodes(fa) if isinstance(x, ast.Call) and norm(x.func) == "FileConstruct.parse_stream"]
+    if len(c) != 1:
+        raise AnalysisError("I4", where(fa), "per-file parse call not found")
+    handlers = []
+    t = c[0]
+    while t is not None and t is not fa:
+        par = getattr(t, "_parent", None)
+        if isinstance(par, ast.Try) and any(n is c[0] for b in par.body for n in ast.walk(b)):
+            handlers += par.handlers
+        t = par
+    caught = {}
+    for h in handlers:
+        names = []
+        if h.type is not None:
+            for n in ([h.type] if not isinstance(h.type, ast.Tuple) else h.type.elts):
+                names.append(dotted(n) or "?")
+        for nm in names:
+            caught[nm] = h
+            caught[nm.split(".")[-1]] = h
+    ctx.fact("I4", "storage_exceptions", sorted(raised))
+    for nm, node in sorted(raised.items()):
+        if nm in I4_NOT_REQUIRED:
+            ctx.note(f"I4: {nm} not required in the per-file conversion: {I4_NOT_REQUIRED[nm]}")
+            continue
+        h = caught.get(nm)
+        ok = h is not None and "ConstructError" in raises_in(h.body)
+        ctx.ob("I4", fa, f"storage-layer failure `{nm}` while parsing one file becomes ConstructError (only that file is skipped)", ok,
+               "" if ok else f"`{nm}` (raised at {node._module.path if hasattr(node, '_module') else ''}:{node.lineno}) escapes FileAdapter._parse: ls/export of the whole image aborts",
+               inst=f"converted:{nm}")
+    for nm, why in library.items():
+        h = caught.get(nm)
+        ok = h is not None and "ConstructError" in raises_in(h.body)
+        ctx.ob("I4", fa, f"library-level short-read failure `{nm}` ({why}) becomes ConstructError", ok, "" if ok else f"`{nm}` escapes", inst=f"converted:{nm}")
+    h = caught.get("InvalidCharacter")
+    ctx.ob("I4", fa, "an invalid name character inside a file becomes ConstructError", h is not None and "ConstructError" in raises_in(h.body), "", inst="converted:InvalidCharacter")
+    # a read beyond a file's chain is a short read
+    ga = ctx.fn("smpl_extract/util/fat.py", "FileStream._get_address_given_sector_index", "I4")
+    subs = [n for n in own_nodes(ga) if isinstance(n, ast.Subscript) and dotted(n.value) == "self.sector_list"]
+    ok = len(subs) == 1
+    if ok:
+        h = find_try_handler(subs[0], ga, {"IndexError", "LookupError"})
+        ok = h is not None and "SectorReadError" in raises_in(h.body)
+    ctx.ob("I4", ga, "addressing a sector beyond the file's chain raises SectorReadError (the transcoders end that sample's data), not a bare IndexError", ok,
+           "" if ok else "the chain lookup is unchecked: a sample whose window starts beyond its chain aborts the whole export", inst="beyond-chain")
+
+
 def rule_I2(ctx):
     """accumulating / position-dependent realisers run once: guarded by a flag they set on every path"""
     cases = [
